@@ -69,6 +69,8 @@ pub fn rerun(line: &str) -> Option<String> {
             &unhex(hx), crate::common::Opts { ecl: optn(e), mode: optn(m), version: optn(v), mask: optn(k) }, &crate::svgops::parse(ops)?)),
         ["termt", hx, e, m, v, k] => Some(crate::gen::termt_line(
             &unhex(hx), crate::common::Opts { ecl: optn(e), mode: optn(m), version: optn(v), mask: optn(k) })),
+        ["termpc", hx, e, m, v, k] => Some(crate::gen::termpc_line(
+            &unhex(hx), crate::common::Opts { ecl: optn(e), mode: optn(m), version: optn(v), mask: optn(k) })),
         ["termp", hx, e, m, v, k] => Some(crate::gen::termp_line(
             &unhex(hx), crate::common::Opts { ecl: optn(e), mode: optn(m), version: optn(v), mask: optn(k) })),
         ["pixt", hx, e, m, v, k, ops, fw, fh] => {
